@@ -603,6 +603,14 @@ impl<'a> RuleGen<'a> {
                 _ => { let x = self.seg_el(t, Where::Output); out.push(x); }
             }
         }
+        // position bookkeeping after a length change is where multi-element substitutions go wrong: one in six of them changes the length of an early element outright
+        if self.prof.out_length_multi && input.len() > 1 && out.len() > 1 && t.chance(1, 6) {
+            let i = t.pick(out.len() - 1);
+            if matches!(out[i], El::Matrix { .. } | El::Ipa { .. } | El::Group { .. }) {
+                let (sign, name) = [(Sign::Minus, PName::Long), (Sign::Plus, PName::Long), (Sign::Minus, PName::Overlong), (Sign::Plus, PName::Overlong)][t.weighted(&[4, 3, 2, 1])];
+                out[i] = El::Matrix { params: Params { args: vec![(sign, name)], tone: None }, var: None };
+            }
+        }
         // occasionally shorter or longer than the input
         if self.prof.uneven && out.len() > 1 && t.chance(1, 8) { out.pop(); }
         if self.prof.uneven && t.chance(1, 8) { let x = match t.weighted(&[2, if self.prof.syll { 1 } else { 0 }, 5]) { 0 => El::SBound, 1 => self.syll_el(t, Where::Output), _ => { let text = pick_seg(t, 5).text.clone(); El::Ipa { text, params: None } } }; out.push(x); }
@@ -656,7 +664,8 @@ impl<'a> RuleGen<'a> {
                     match &e {
                         El::Syll { .. } | El::Struct { .. } => { idx += 1; while idx < g.segs.len() && !g.starts.is_empty() && !g.starts[idx] { idx += 1; } }
                         El::SBound => {}
-                        _ => idx += 1,
+                        // one element stands for a whole long segment (its copies follow each other in `segs`)
+                        _ => { idx += 1; while idx < g.segs.len() && g.segs[idx].1 == g.segs[idx - 1].1 && g.starts.get(idx).map(|b| !*b).unwrap_or(true) { idx += 1; } }
                     }
                     v.push(e);
                 }
@@ -681,6 +690,16 @@ impl<'a> RuleGen<'a> {
             _ => {
                 let mut inputs = vec![];
                 for _ in 0..n_terms { let v = gen_input(self, t, if kind == 3 { 2 } else { 1 }); inputs.push(v); }
+                // a condensed rule may mix kinds: one alternative an insertion (`*`), the others substitutions, each with its own environment
+                if kind == 0 && n_terms >= 2 && self.prof.insertion && self.prof.condensed && t.chance(1, 5) {
+                    self.uses.insert("mixed-condensed");
+                    let j = if t.chance(2, 3) { 0 } else { t.pick(n_terms) };
+                    inputs[j] = vec![El::Ipa { text: "*".into(), params: None }];
+                    let mut outs = vec![];
+                    for i in 0..n_terms { let o = if i == j { self.insertion_output(t) } else { self.output_for(t, &inputs[i].clone()) }; outs.push(o); }
+                    let envs: Vec<EnvItem> = (0..n_terms).map(|_| EnvItem::One(self.env(t, false))).collect();
+                    return Rule { input: Side::Terms(inputs), output: Side::Terms(outs), context: Some(EnvSpec::List(envs)), except: None, comment: None };
+                }
                 let has_ctx = t.chance(2, 3);
                 let ctx = if has_ctx { Some(self.env_spec(t, n_terms, false)) } else { None };
                 let except = if t.chance(1, 5) { Some(self.env_spec(t, n_terms, false)) } else { None };
